@@ -957,8 +957,8 @@ def run(ctx):
         "omits it and is compared exactly only where the Model predicts Spec-conformant results",
         "garbage collection does not move or reuse reachable objects (C05; one stream runs with a full collection at every second allocation); "
         "number keys, NaN and -0 are C11/D8, not exercised here",
-        "lists are created by literals (capacity max(len, 4)); a list of capacity 0 (`[].iter().list()`) is outside the model: its first push "
-        "writes out of bounds in the implementation (notes/w_new_zero_capacity_list_push.lay, a C16 matter)",
+        "lists are created by literals (capacity max(len, 4)); the growth rule is the repaired one, (cap * 2).max(needed) (ca8f885), which the model "
+        "carries for every capacity incl. 0, but the history generator does not create capacity-0 lists (`[].iter().list()`): those are exercised by C11",
     ]
 
 
